@@ -1,7 +1,7 @@
 (* RbcStep3: local progress facts (C14 totality): r-ready goes to everybody, thresholds trigger r-ready and dbar,
    every first r-ready from a peer is counted. *)
 From Coq Require Import ZArith List Bool Lia.
-From LT Require Import RbcModel RbcLemmas RbcStep RbcStep2.
+From LT Require Import RbcModel RbcLemmas RbcStep.
 Import ListNotations.
 Local Open Scope Z_scope.
 
@@ -37,6 +37,19 @@ Proof.
   rewrite ?upd2_eq in C; destruct (tag_eqb tg (mtag m) && (d =? m_pay m)) eqn:X; auto; b2p; subst;
   try (left; lia);
   try (right; exists 0, (Msg (m_id m) (m_j m) (m_s m) 3 (m_pay m)); split; [unfold to_all; apply in_map_iff; exists 0; split; auto; apply range_in; lia|cbn; auto]; fail).
+Qed.
+
+(* an echo quorum triggers r-ready unless t+1 readys were there already (needed for t = 0) *)
+Lemma handle_echo_trigger : forall me st l m st' out r, handle me st l m = (st', out, r) ->
+  forall tg d, n - t <= ed st' tg d ->
+  n - t <= ed st tg d \/ (exists dst x, In (dst, x) out /\ mtag x = tg /\ m_act x = 3 /\ m_pay x = d) \/ t + 1 <= rd st' tg d.
+Proof.
+  intros me st l m st' out r. open_handle; intros tg d C; auto;
+  rewrite ?upd2_eq in *; destruct (tag_eqb tg (mtag m) && (d =? m_pay m)) eqn:X; auto; b2p; subst;
+  try (left; lia);
+  try (right; left; exists 0, (Msg (m_id m) (m_j m) (m_s m) 3 (m_pay m)); split; [unfold to_all; apply in_map_iff; exists 0; split; auto; apply range_in; lia|cbn; auto]; fail);
+  try (right; right; lia).
+  match goal with Hx : _ && _ = false |- _ => apply andb_false_iff in Hx; destruct Hx end; b2p; [left; lia|right; right; lia].
 Qed.
 
 (* 2t+1 readys fix the digest *)
@@ -78,9 +91,11 @@ Definition pstep3 (st st' : pst) (out : list (Z * msg)) (offer : option (Z * msg
   (forall tg, dbar st tg <> None -> dbar st' tg <> None) /\
   (forall k tg, filt st FReady k tg = false -> filt st' FReady k tg = true ->
      exists m, offer = Some (k, m) /\ mtag m = tg /\ m_act m = 3 /\
-               (toolong tg (m_pay m) = true \/ rd st' tg (m_pay m) = rd st tg (m_pay m) + 1)).
+               (toolong tg (m_pay m) = true \/ rd st' tg (m_pay m) = rd st tg (m_pay m) + 1)) /\
+  (forall tg d, n - t <= ed st' tg d ->
+     n - t <= ed st tg d \/ (exists dst x, In (dst, x) out /\ mtag x = tg /\ m_act x = 3 /\ m_pay x = d) \/ t + 1 <= rd st' tg d).
 
-Ltac split5 := refine (conj _ (conj _ (conj _ (conj _ _)))).
+Ltac split5 := refine (conj _ (conj _ (conj _ (conj _ (conj _ _))))).
 
 Lemma pstep3_same : forall st st' out off,
   filt st' = filt st -> ed st' = ed st -> rd st' = rd st -> dbar st' = dbar st ->
@@ -109,6 +124,7 @@ Proof.
       pose proof (handle_dbar_trigger _ _ _ _ _ _ _ HH) as X3.
       pose proof (handle_dbar_keep _ _ _ _ _ _ _ HH) as X4.
       pose proof (handle_fready _ _ _ _ _ _ _ HH) as X5.
+      pose proof (handle_echo_trigger _ _ _ _ _ _ _ HH) as X6.
       unfold pstep3, rcond in *. rewrite Ed, Rd, Db in *. split5.
       * intros dst x I A3 i Ii. apply in_app_or in I. destruct I as [I|I].
         -- apply A6 in I. cbn in I. lia.
@@ -118,6 +134,8 @@ Proof.
       * exact X3.
       * exact X4.
       * intros k tg F0 F1. apply Fr in F0. destruct (X5 k tg F0 F1) as (-> & -> & A3 & C). exists m. auto.
+      * intros tg d C. destruct (X6 tg d C) as [C0|[(dst & x & I & E)|C0]]; auto.
+        right. left. exists dst, x. split; auto. apply in_or_app. auto.
     + cbn [o_st o_sent]. unfold pstep3, rcond. rewrite Ed, Rd, Db. split5; auto.
       * intros dst x I A3. apply A6 in I. cbn in I. lia.
       * intros k tg F0 F1. apply Fr in F0. congruence.
